@@ -10,7 +10,8 @@ M  Focal.tla      _apply_numpy (one transition per cell) vs the set of cells und
 R  the same kernels/rasters through the real focal.apply / focal_stats / mean / hotspots / convolution_2d (numpy
    backend) and _calc_hotspots_numpy driven directly; outputs bridged to exact rationals and judged by TLC
    (Focal_Judge.tla).
-T  seeded larger / random rasters, kernels, dtypes, weighted kernels, kernels larger than the raster.
+T  seeded larger / random rasters, kernels, dtypes, weighted kernels, kernels larger than the raster; a sample of
+   all of it on Dask-backed rasters (single block, 1-cell chunks, uneven split), same clauses.
 """
 import itertools
 import json
@@ -106,7 +107,7 @@ def rand_kernel(rng, fam):
 
 
 def apply_window_jobs(rng, tier, fam):
-    shapes = ([(4, 4), (3, 4), (1, 4), (4, 1), (2, 3)] if tier == "quick"
+    shapes = ([(4, 4), (3, 4), (4, 1)] if tier == "quick"
               else [(h, w) for h in range(1, 5) for w in range(1, 5)])
     jobs = []
     n = 0
@@ -190,12 +191,13 @@ def reducer_jobs(rng, tier, fam):
 
 def mean_jobs(rng, tier):
     jobs = []
-    for (H, W) in ((2, 2), (1, 3), (3, 1)):
+    for (H, W) in (((2, 2),) if tier == "quick" else ((2, 2), (1, 3), (3, 1))):
         for X in all_rasters(H, W):
             for ex in EXCLS:
                 for p in (0, 1, 2):
                     jobs.append({"kind": "mean", "X": X, "passes": p, "excl": ex, "tag": "mean_all"})
-    for X in all_rasters(2, 3):
+    r23 = list(all_rasters(2, 3))
+    for X in (r23 if tier == "thorough" else rng.sample(r23, 1000)):
         combos = [(ex, p) for ex in EXCLS for p in (1, 2)]
         for ex, p in (combos if tier == "thorough" else [rng.choice(combos)]):
             jobs.append({"kind": "mean", "X": X, "passes": p, "excl": ex, "tag": "mean_2x3"})
@@ -303,28 +305,86 @@ def badkernel_jobs():
             for w in ("ndarray", "list")]
 
 
+def chunkings(H, W):
+    """single block, 1-cell chunks, an uneven split"""
+    out = [[[H], [W]], [[1] * H, [1] * W]]
+    un = [[H - 1, 1] if H >= 2 else [1], [1, W - 1] if W >= 2 else [1]]
+    if un not in out:
+        out.append(un)
+    return out
+
+
+def dask_jobs(rng, tier, base):
+    """C09 holds for every backend: a modest sample of the same cases on Dask-backed rasters (2-3 chunkings each),
+    judged by the same clauses against the definition.  Dask refuses a halo deeper than the raster (outside the
+    domain), so kernels here have half-widths <= the raster's sides."""
+    q = tier == "quick"
+    want = {"windows": 6 if q else 60, "reducers": 6 if q else 60, "stats_random": 8 if q else 80,
+            "conv_random": 14 if q else 150, "hot_random": 8 if q else 80, "hot_3x3": 4 if q else 40}
+    pools = {}
+    for j in base:
+        t = j.get("tag")
+        if t not in want or j.get("dtype") or j.get("kdtype"):
+            continue
+        H, W = len(j["X"]), len(j["X"][0])
+        K = j.get("K") or j.get("Wt")
+        if len(K) // 2 > H or len(K[0]) // 2 > W or H * W < 4:
+            continue
+        pools.setdefault(t, []).append(j)
+    jobs = []
+    for t, n in want.items():
+        pool = pools.get(t, [])
+        for j in rng.sample(pool, min(n, len(pool))):
+            H, W = len(j["X"]), len(j["X"][0])
+            for ch in chunkings(H, W):
+                d = dict(j)
+                if t == "windows":
+                    d["reds"] = [r for r in j["reds"] if r != "shape"][:4]
+                elif t == "reducers":
+                    d["reds"] = ["at_0_last", "wsum", "nancount", "mean"]
+                d["chunks"] = ch
+                d["tag"] = "dask_" + t
+                jobs.append(d)
+    # mean: passes 0..2, exclusion lists with and WITHOUT NaN (then the NaN padding of a halo must not leak in)
+    excls = [[0], [-9999], [1, 2], ["nan"], [0, "nan"], [-9999], [0]]
+    for t in range(30 if q else 300):
+        H, W = rng.choice([(3, 3), (4, 4), (3, 5), (5, 4), (2, 4), (4, 2)])
+        X = rand_raster(rng, H, W, [0, 1, 2], rng.choice([0.0, 0.0, 0.2]))
+        ex = excls[t % len(excls)]
+        p = [2, 2, 1, 2, 0][t % 5]
+        for ch in chunkings(H, W):
+            jobs.append({"kind": "mean", "X": X, "passes": p, "excl": ex, "chunks": ch, "tag": "dask_mean"})
+    return jobs
+
+
 def arrange(rng, jobs, nproc=NPROC):
     """run_jobs gives job i to process i % nproc.  Jobs with a non-default dtype need their own JIT
     specialisations (0.5 s each): keep them all on process 0 so that only one process compiles them."""
-    variant = [j for j in jobs if j.get("dtype") or j.get("kdtype")]
-    normal = [j for j in jobs if not (j.get("dtype") or j.get("kdtype"))]
+    variant = [j for j in jobs if (j.get("dtype") or j.get("kdtype")) and not j.get("chunks")]
+    dask = [j for j in jobs if j.get("chunks")]       # float32 specialisations too: processes 1 and 2 only
+    normal = [j for j in jobs if not (j.get("dtype") or j.get("kdtype") or j.get("chunks"))]
     rng.shuffle(normal)
     out = []
-    vi = ni = 0
-    while vi < len(variant) or ni < len(normal):
-        if len(out) % nproc == 0 and vi < len(variant):
+    vi = ni = di = 0
+    while vi < len(variant) or ni < len(normal) or di < len(dask):
+        slot = len(out) % nproc
+        if slot == 0 and vi < len(variant):
             out.append(variant[vi]); vi += 1
+        elif slot in (1, 2) and di < len(dask):
+            out.append(dask[di]); di += 1
         elif ni < len(normal):
             out.append(normal[ni]); ni += 1
+        elif di < len(dask):
+            out.append(dask[di]); di += 1
         else:
             out.append(variant[vi]); vi += 1
     return out
 
 
 # ------------------------------------------------------------------------------------------ verdicts
-FIELDS = {"apply": ["kind", "X", "K", "outs"], "mean": ["kind", "X", "passes", "excl", "out"],
-          "conv": ["kind", "X", "Wt", "out"], "hot": ["kind", "X", "K", "out", "outneg", "band"],
-          "ladder": ["kind", "zs", "outs"]}
+FIELDS = {"apply": ["kind", "lazy", "X", "K", "outs"], "mean": ["kind", "lazy", "X", "passes", "excl", "out"],
+          "conv": ["kind", "lazy", "X", "Wt", "out"], "hot": ["kind", "lazy", "X", "K", "out", "outneg", "band"],
+          "ladder": ["kind", "lazy", "zs", "outs"]}
 FUNC = {"mean": "mean", "conv": "convolution_2d", "hot": "hotspots", "ladder": "hotspots"}
 
 
@@ -344,13 +404,14 @@ def judge_kind(ctx, kind, cases, parallel):
             ctx.borderline += int(extra)
         if cl != "ok":
             func = c["job"].get("func") or FUNC[kind]
-            key = "%s:%s" % (func, cl)
+            key = "%s%s:%s" % ("dask:" if c["job"].get("chunks") else "", func, cl)
             seen[key] = seen.get(key, 0) + 1
             if seen[key] <= 3:
                 small = {k: c[k] for k in c if k not in ("job",)}
                 small["job"] = c["job"]
-                ctx.violation(key, cl, small, "%s %s (cell, observed, expected)=%s" % (
-                    c["job"].get("tag", ""), func, extra))
+                ctx.violation(key, cl, small, "%s %s%s (cell, observed, expected)=%s" % (
+                    c["job"].get("tag", ""), func,
+                    " chunks=%s" % c["job"]["chunks"] if c["job"].get("chunks") else "", extra))
     for key, n in seen.items():
         if n > 3:
             ctx.note("%s: %d failing cases (3 replay files written)" % (key, n))
@@ -367,7 +428,9 @@ def run(ctx):
         "non-empty homogeneous float lists; passes <= 2 for the exact rational check",
         "hotspots: cells whose exact z is within 1e-3 of 1.65/1.96/2.58 are borderline (both neighbouring classes "
         "admitted); rasters with zero variance (the library raises) are outside the domain",
-        "numpy backend; kernels of even shape / non-arrays are outside the domain (validation differences are DRIFT)",
+        "NumPy backend for the bulk, a Dask-backed sample (three chunkings each, synchronous scheduler, result must "
+        "be lazy) judged by the same clauses; Dask halos deeper than the raster are refused by Dask (outside the "
+        "domain); kernels of even shape / non-arrays are outside the domain (validation differences are DRIFT)",
     ]
     rng = random.Random(ctx.seed * 15485863 + 9)
     thorough = ctx.tier == "thorough"
@@ -383,24 +446,30 @@ def run(ctx):
         return dict(spec="Spec", invariants=inv_f, constants=dict(
             SHAPES=tla_shapes(shapes), KSHAPES=tla_shapes(kshapes), KFAMILY=kfam, VALS=tla_vals(vals),
             RMODE=rmode, STATS=stats_set, MUT=mut))
-    ids_shapes = all_shapes if thorough else [(4, 4), (3, 4), (1, 4), (4, 1), (2, 3), (1, 1)]
+    # quick keeps the non-square 3x4 (+ the two 1-wide shapes); all sixteen shapes <= 4x4 run in thorough
+    ids_shapes = all_shapes if thorough else [(3, 4), (4, 1), (1, 4), (2, 2)]
     ctx.model_check("Focal", focal_cfg(ids_shapes, [(1, 3), (3, 1), (3, 3)], KFAMILY, "ids"), "ids_all_masks",
                     coverage=False)
-    ctx.model_check("Focal", focal_cfg([(2, 2)], [(1, 3), (3, 1)], KFAMILY + K33_SEL, "all"), "values_2x2")
+    ctx.model_check("Focal", focal_cfg([(2, 2)], [(1, 3), (3, 1)],
+                                       KFAMILY + K33_SEL if thorough else KFAMILY[6:8] + K33_SEL[:6], "all"),
+                    "values_2x2")
     if thorough:
         ctx.model_check("Focal", focal_cfg([(2, 2), (1, 3), (3, 1)], [(1, 3), (3, 1), (3, 3)], KFAMILY, "all",
                                            vals=[0, 1, "nan"]), "values_small_all_masks")
         ctx.model_check("Focal", focal_cfg([(2, 3)], [(1, 3)], KFAMILY[6:8] + K33_SEL[:6], "all"), "values_2x3")
         ctx.model_check("Focal", focal_cfg([(4, 4)], [(3, 1)], KFAMILY[6:] + K33_SEL[:4], "sparse",
                                            vals=[1, "nan"]), "values_4x4_sparse")
-    for mut, inv in (("transpose", "BufferIsPositionedWindow"), ("mirror_rows", "BufferHoldsExactlyTheWindow"),
-                     ("mirror_cols", "BufferIsPositionedWindow"), ("half_up", "BufferIsPositionedWindow"),
-                     ("swap_half", "BufferHoldsExactlyTheWindow"), ("noclip", "BufferHoldsExactlyTheWindow"),
-                     ("nan_counts", "StatsAreStatsOfTheWindow")):
+    # every negative twin runs in thorough; quick runs the starred subset (a JVM start costs 3-4 CPU-s)
+    def twins(lst):
+        return [t[:2] for t in lst if thorough or len(t) > 2]
+    for mut, inv in twins((("transpose", "BufferIsPositionedWindow", 1), ("mirror_rows", "BufferHoldsExactlyTheWindow"),
+                           ("mirror_cols", "BufferIsPositionedWindow"), ("half_up", "BufferIsPositionedWindow"),
+                           ("swap_half", "BufferHoldsExactlyTheWindow", 1), ("noclip", "BufferHoldsExactlyTheWindow"),
+                           ("nan_counts", "StatsAreStatsOfTheWindow", 1))):
         cfg = focal_cfg([(3, 4), (2, 2)] if mut != "nan_counts" else [(2, 2)], [(1, 3), (3, 1)], KFAMILY + K33_SEL,
                         "ids" if mut != "nan_counts" else "all", mut=mut)
         cfg["invariants"] = [inv]
-        ctx.model_check("Focal", cfg, "neg_" + mut, expect="violation")
+        ctx.model_check("Focal", cfg, "neg_" + mut, expect="violation", workers=2)
 
     # ---------------------------------------------------------------- M : FocalMean.tla
     inv_m = ["MeanIsIteratedWindowMean", "ResultAfterAllPasses", "ExcludedPassThrough", "OthersAreWindowMeans",
@@ -409,17 +478,20 @@ def run(ctx):
     def mean_cfg(shapes, vals, mut="none", passes=2):
         return dict(spec="Spec", invariants=inv_m, constants=dict(
             SHAPES=tla_shapes(shapes), VALS=tla_vals(vals), EXCLS=tla_excls(EXCLS), PASSES=passes, MUT=mut))
-    ctx.model_check("FocalMean", mean_cfg([(2, 2), (1, 3), (3, 1), (1, 1)], VALS4), "mean_small")
-    ctx.model_check("FocalMean", mean_cfg([(2, 3)] if not thorough else [(2, 3), (3, 2)], VALS4), "mean_2x3")
+    ctx.model_check("FocalMean", mean_cfg([(2, 2), (1, 3), (3, 1), (1, 1)], VALS4), "mean_small", workers=8)
+    if thorough:
+        ctx.model_check("FocalMean", mean_cfg([(2, 3), (3, 2)], VALS4), "mean_2x3")
+    else:
+        ctx.model_check("FocalMean", mean_cfg([(2, 3)], [0, 1, "nan"]), "mean_2x3_01nan")
     if thorough:
         ctx.model_check("FocalMean", mean_cfg([(3, 3)], [0, 1, "nan"]), "mean_3x3_01nan")
         ctx.model_check("FocalMean", mean_cfg([(2, 4)], [0, 2, "nan"]), "mean_2x4_02nan")
-    for mut, inv in (("no_clip_right", "OthersAreWindowMeans"), ("exclude_to_nan", "ExcludedPassThrough"),
-                     ("exclude_neighbours", "MeanIsIteratedWindowMean"), ("nan_not_equal", "ExcludedPassThrough"),
-                     ("one_pass", "ResultAfterAllPasses")):
+    for mut, inv in twins((("no_clip_right", "OthersAreWindowMeans", 1), ("exclude_to_nan", "ExcludedPassThrough"),
+                           ("exclude_neighbours", "MeanIsIteratedWindowMean"),
+                           ("nan_not_equal", "ExcludedPassThrough", 1), ("one_pass", "ResultAfterAllPasses", 1))):
         cfg = mean_cfg([(2, 2), (1, 3)], VALS4, mut=mut)
         cfg["invariants"] = [inv]
-        ctx.model_check("FocalMean", cfg, "neg_" + mut, expect="violation")
+        ctx.model_check("FocalMean", cfg, "neg_" + mut, expect="violation", workers=2)
 
     # ---------------------------------------------------------------- M : FocalConv.tla
     inv_c = ["ConvIsWeightedWindowSum", "NaNWhereWindowLeaves", "AgreesWithFocalSum"]
@@ -428,16 +500,17 @@ def run(ctx):
         return dict(spec="Spec", invariants=inv_c, constants=dict(
             SHAPES=tla_shapes(shapes), VALS=tla_vals(vals), WKERNELS=tla_wkernels(WK_MODEL), MUT=mut))
     ctx.model_check("FocalConv", conv_cfg([(1, 3), (3, 1), (2, 3), (1, 4)], VALS4), "conv_small")
-    ctx.model_check("FocalConv", conv_cfg([(3, 3)], [0, 1, "nan"] if not thorough else [0, 1, 2]), "conv_3x3")
+    ctx.model_check("FocalConv", conv_cfg([(3, 3)], [0, 1] if not thorough else [0, 1, 2]), "conv_3x3")
     if thorough:
+        ctx.model_check("FocalConv", conv_cfg([(3, 3)], [0, 1, "nan"]), "conv_3x3_nan")
         ctx.model_check("FocalConv", conv_cfg([(2, 4), (4, 2)], [0, 1, "nan"]), "conv_2x4")
         ctx.model_check("FocalConv", conv_cfg([(3, 4)], [0, 1]), "conv_3x4")
-    for mut, inv in (("flip_kernel", "ConvIsWeightedWindowSum"), ("clip_border", "NaNWhereWindowLeaves"),
-                     ("skip_nan", "ConvIsWeightedWindowSum"), ("swap_half", "ConvIsWeightedWindowSum"),
-                     ("zero_weight_hides_nan", "ConvIsWeightedWindowSum")):
+    for mut, inv in twins((("flip_kernel", "ConvIsWeightedWindowSum", 1), ("clip_border", "NaNWhereWindowLeaves", 1),
+                           ("skip_nan", "ConvIsWeightedWindowSum"), ("swap_half", "ConvIsWeightedWindowSum"),
+                           ("zero_weight_hides_nan", "ConvIsWeightedWindowSum"))):
         cfg = conv_cfg([(1, 3), (3, 1)], [0, 1, "nan"], mut=mut)
         cfg["invariants"] = [inv]
-        ctx.model_check("FocalConv", cfg, "neg_" + mut, expect="violation")
+        ctx.model_check("FocalConv", cfg, "neg_" + mut, expect="violation", workers=2)
 
     # ---------------------------------------------------------------- M : Hotspots.tla
     inv_l = ["LadderIsThresholdForm", "LadderOdd", "LadderRange", "LadderMonotone", "LadderSign"]
@@ -448,14 +521,22 @@ def run(ctx):
                                                      ["NegationSymmetry", "RasterRange", "BandAdmitsExact"]),
                     constants=dict(MODE=mode, ZMAX=4000, SHAPES=tla_shapes(shapes), VALS=tla_vals(list(vals)),
                                    KERNELS=kernels or hk, MUT=mut))
-    ctx.model_check("Hotspots", hot_cfg("ladder"), "ladder")
-    ctx.model_check("Hotspots", hot_cfg("raster", shapes=((3, 3),), vals=(0, 1, 2) if thorough else (0, 1, "nan"),
-                                        kernels=hk if thorough else hk[:2]), "raster_3x3")
+    ctx.model_check("Hotspots", hot_cfg("ladder"), "ladder", workers=4)
+    k13 = [[[1, 1, 0]], [[0, 1, 1]]]
+    if thorough:
+        ctx.model_check("Hotspots", hot_cfg("raster", shapes=((3, 3),), vals=(0, 1, 2)), "raster_3x3")
+        ctx.model_check("Hotspots", hot_cfg("raster", shapes=((3, 3),), vals=(0, 1, "nan"), kernels=hk[:2]),
+                        "raster_3x3_nan")
+    else:
+        ctx.model_check("Hotspots", hot_cfg("raster", shapes=((3, 3),), vals=(0, 1), kernels=hk[:2]), "raster_3x3",
+                        workers=8)
+        ctx.model_check("Hotspots", hot_cfg("raster", shapes=((2, 3),), vals=(0, 1, "nan"), kernels=k13),
+                        "raster_2x3_nan", workers=8)
     if thorough:
         ctx.model_check("Hotspots", hot_cfg("raster", shapes=((3, 4), (4, 3)), vals=(0, 2)), "raster_3x4")
-    for mut, inv in (("p233", "LadderIsThresholdForm"), ("ge", "LadderIsThresholdForm"), ("abs_lost", "LadderOdd"),
-                     ("t95", "LadderIsThresholdForm")):
-        ctx.model_check("Hotspots", hot_cfg("ladder", mut=mut, inv=[inv]), "neg_" + mut, expect="violation")
+    for mut, inv in twins((("p233", "LadderIsThresholdForm", 1), ("ge", "LadderIsThresholdForm"),
+                           ("abs_lost", "LadderOdd", 1), ("t95", "LadderIsThresholdForm"))):
+        ctx.model_check("Hotspots", hot_cfg("ladder", mut=mut, inv=[inv]), "neg_" + mut, expect="violation", workers=2)
     ctx.exhaustive = True
     if os.environ.get("VERIF_C09_STAGE") == "M":      # development aid: model checking only
         return
@@ -469,6 +550,7 @@ def replay_all(ctx, rng):
     jobs = (apply_window_jobs(rng, ctx.tier, fam) + stats_jobs(rng, ctx.tier, fam, K33_SEL + KFAMILY[:6])
             + reducer_jobs(rng, ctx.tier, fam) + mean_jobs(rng, ctx.tier) + conv_jobs(rng, ctx.tier)
             + hot_jobs(rng, ctx.tier) + badkernel_jobs())
+    jobs += dask_jobs(rng, ctx.tier, jobs)
     jobs = arrange(rng, jobs)
     judge_cases(ctx, core.run_jobs("focal_worker", jobs, nproc=NPROC))
 
@@ -481,11 +563,12 @@ def judge_cases(ctx, cases):
                 continue
             # a call inside the domain raised: that is a failure of the property's "equal ..." clause
             func = c["job"].get("func") or FUNC.get(c["kind"], c["kind"])
-            ctx.violation("%s:call-raised" % func, "call_raised", c["job"], c["error"])
+            ctx.violation("%s%s:call-raised" % ("dask:" if c["job"].get("chunks") else "", func), "call_raised",
+                          c["job"], c["error"])
             continue
         by.setdefault(c["kind"], []).append(c)
     for kind in ("apply", "mean", "conv", "hot", "ladder"):
-        judge_kind(ctx, kind, by.get(kind, []), parallel=8 if kind in ("apply", "mean") else 4)
+        judge_kind(ctx, kind, by.get(kind, []), parallel=ctx.pick(3, 8) if kind in ("apply", "mean") else ctx.pick(2, 4))
     # kernel validation: not part of the property text -> drift only
     for c in by.get("badkernel", []):
         valid = c["what"] == "ndarray" and c["rows"] % 2 == 1 and c["cols"] % 2 == 1
@@ -508,6 +591,7 @@ def judge_cases(ctx, cases):
         for c in by.get(kind, [])[:2]:
             ctx.sample({k: c[k] for k in c if k in ("kind", "X", "K", "Wt", "passes", "excl", "out", "raw")}, limit=8)
     ctx.extra["replayed_by_kind"] = {k: len(v) for k, v in by.items()}
+    ctx.extra["dask_backed_cases"] = sum(1 for c in cases if c["job"].get("chunks"))
 
 
 def replay(ctx, rec):
@@ -526,10 +610,10 @@ META = {
                   "statistics of that set), the mean passes with four exclusion lists, the convolution loops with IEEE "
                   "NaN, and the hotspot ladder for every z in thousandths (equals the 1.65/1.96/2.58 threshold form, "
                   "odd, seven values), each with negative twins. The same kernels and rasters go through the real "
-                  "focal.apply/focal_stats/mean/hotspots/convolution_2d; TLC compares every output cell with the "
-                  "abstract value.",
+                  "focal.apply/focal_stats/mean/hotspots/convolution_2d (NumPy-backed, plus a Dask-backed sample with "
+                  "three chunkings each); TLC compares every output cell with the abstract value.",
     "level_note": "Trusted: TLC; the float bridge rational(D) (4 ulp float32 / 64 ulp float64 of the largest "
                   "intermediate; std via its square); hotspot cells within 1e-3 of a threshold admitted both ways; "
-                  "numpy backend only; 4x4 value-level exhaustiveness is restricted to sparse rasters (index level is "
+                  "Dask only sampled (C01 covers all chunkings); 4x4 value-level exhaustiveness is restricted to sparse rasters (index level is "
                   "complete).",
 }
